@@ -11,7 +11,7 @@ from checks.tsp_common import PRELUDE, Hole
 from checks import C14
 
 SK = {}
-SK["comments"] = (C14.TEXT.replace('NAME "x"', 'NAME "H01"').replace('"k1" "v1"', '"k1" "H02"').replace('NAME "c"', "NAME 'H03'"),
+SK["comments"] = (C14.TEXT.replace('"k2" "v2"', """"'k2'" "v2"\n      '"k3"' 'v3'""").replace('NAME "x"', 'NAME "H01"').replace('"k1" "v1"', '"k1" "H02"').replace('NAME "c"', "NAME 'H03'"),
                   [Hole("H01"), Hole("H02"), Hole("H03", quote="'")], ["CC", "CF", "CH", "CK"])
 SK["blocks"] = ('''MAP
   NAME "H01"
